@@ -10,6 +10,7 @@
 (***************************************************************************)
 EXTENDS Naturals, Sequences, FiniteSets, TLC, Json
 CONSTANTS L,          \* maximal number of bus messages
+          Rich,       \* TRUE: also forged claims that the name has no owner any more
           AllModeLen, \* histories up to this length are replayed in both stream modes
           Schedules   \* subset of {"each", "glue_next", "glue_both", "glue_next2", "glue_prev"}
 
@@ -22,8 +23,8 @@ VARIABLES h, o, init, r     \* history, current owner, initial owner, position o
 Q == [k |-> "q"]
 Alphabet(own, replied) ==
   {[k |-> "noc", new |-> x] : x \in (Peers \cup {NoOne}) \ {own}}
-  \cup {[k |-> "forge", new |-> Stranger, uni |-> TRUE], [k |-> "forge", new |-> Stranger, uni |-> FALSE],
-        [k |-> "forge", new |-> NoOne, uni |-> TRUE]}
+  \cup {[k |-> "forge", new |-> Stranger, uni |-> TRUE], [k |-> "forge", new |-> Stranger, uni |-> FALSE]}
+  \cup (IF Rich THEN {[k |-> "forge", new |-> NoOne, uni |-> TRUE]} ELSE {})
   \cup {[k |-> "nocother", new |-> Stranger]}
   \cup {[k |-> "sig", from |-> p, m |-> "Sig"] : p \in Peers \cup {Stranger}}
   \cup {[k |-> "sig", from |-> p, m |-> "Other"] : p \in Peers \cap {own}}
@@ -65,7 +66,7 @@ Modes == IF Len(h) <= AllModeLen \/ \E i \in 1..Len(h) : h[i].k = "sig" /\ h[i].
          THEN {"one", "all"} ELSE {"one"}
 EmitCase ==
   IF Useful
-  THEN \A md \in Modes : \A s \in {x \in Schedules : Applicable(x)} :
+  THEN \A md \in Modes : \A s \in {x \in Schedules : Applicable(x) /\ (md = "one" \/ x \in {"each", "glue_next"})} :
          PrintT(<<"CASE", ToJson([mode |-> md, init |-> init, sched |-> s, ev |-> Weave(1, NoQAfter(s))])>>)
   ELSE TRUE
 =============================================================================
